@@ -8,7 +8,7 @@ import re
 
 from .. import gate
 from ..callgraph import CallGraph
-from ..expr import Chaser, call_name, has_call, has_field, show, walk
+from ..expr import Chaser, call_name, has_call, has_field, show, strip, walk
 from ..fields import FieldAnalysis
 from ..paths import Explorer, describe_path
 from ..report import Finding, Result
@@ -455,7 +455,19 @@ def run(prog, tier, extra=None):
     for bb, t in hs.calls():
         if not (call_name(t) or "").endswith("BlockRing::get_longest_chain_block_hash_at_block_id") or len(t["args"]) < 2:
             continue
-        v = lz8.lin(ch8.origin(t["args"][1]))
+        arg8 = ch8.origin(t["args"][1])
+        # `latest.checked_sub(gp).filter(..)` matched as Some(id): the looked-up id is the payload of the checked difference
+        for _ in range(4):
+            x8 = strip(arg8)
+            if x8[0] == "field" and x8[1][0] == "downcast" and x8[1][2] == "Some":
+                inner = strip(x8[1][1])
+                while inner[0] in ("call", "via") and inner[1].rsplit("::", 1)[-1] in ("filter", "inspect") and "Option" in inner[1]:
+                    inner = strip(inner[2][0] if inner[0] == "call" else inner[2])
+                if inner[0] == "call" and inner[1].rsplit("::", 1)[-1] == "checked_sub" and len(inner[2]) == 2:
+                    arg8 = ("bin", "Sub", inner[2][0], inner[2][1])
+                    continue
+            break
+        v = lz8.lin(arg8)
         if v is not None and v.is_const():
             continue
         res.instance(R8)
